@@ -1,4 +1,5 @@
 import Sismic.Proofs.OkSpec
+import Sismic.Proofs.Times
 import Sismic.Model.Py
 /-!
 # Property C13 — time is frozen per step
@@ -6,8 +7,11 @@ import Sismic.Model.Py
 The clock is read once: `executeOnce` receives the value `clock` that `self.clock.time` returned.
 `after(d)` / `idle(d)`: what the predicates compute (`after_semantics`, `idle_semantics`), which
 times the guard of a transition is given (`guard_sees`), and when those times are written
-(`entry_records_times`, `transition_records_idle_time`).  That nothing else writes them is checked
-by the tie's ghost variables (last entry / last fired transition per state), not proved.
+(`entry_records_times`, `transition_records_idle_time`), and that nothing else writes them
+(`times_written_only_by_steps`: for every outcome of `execute_once` a recorded time changes only to
+the step time, and a state active afterwards either was active with the same entry time or has the
+step time as entry time), so that every active state always has a recorded entry time
+(`active_states_have_entry_time`: `after()` in a guard never meets a missing time).
 -/
 namespace Sismic.C13
 open M
@@ -145,5 +149,47 @@ theorem entry_records_times (step : Micro) (s : StateDef) (rs rs' : RS σ ω) (s
         simp only [assocGet, List.find?_cons, hk] at ih ⊢
         exact ih
   exact ⟨key _ _ _, key _ _ _⟩
+
+/-- **Nothing else writes the recorded times** — for every outcome of `execute_once` (normal
+    return or exception): an entry / idle time changes only to the step time, and every state active
+    afterwards either was already active and kept its entry time, or has the step time as its entry
+    time (it became active during this call). -/
+theorem times_written_only_by_steps (clock : Int) (rs : RS σ ω) :
+    let rs' := (executeOnce env clock rs).2
+    (∀ s, assocGet s rs'.st.entryTime = assocGet s rs.st.entryTime ∨ assocGet s rs'.st.entryTime = some clock) ∧
+    (∀ s, assocGet s rs'.st.idleTime = assocGet s rs.st.idleTime ∨ assocGet s rs'.st.idleTime = some clock) ∧
+    (∀ s, s ∈ rs'.st.config →
+      (s ∈ rs.st.config ∧ assocGet s rs'.st.entryTime = assocGet s rs.st.entryTime) ∨
+      assocGet s rs'.st.entryTime = some clock) :=
+  executeOnce_times env clock rs
+
+/-- every active state has a recorded entry time -/
+def Timed (st : IState σ) : Prop := ∀ s, s ∈ st.config → (assocGet s st.entryTime).isSome = true
+
+/-- any history: calls of `execute_once` (whatever they return or raise) and anything that leaves
+    configuration and recorded entry times alone (queueing, clock moves, context changes) -/
+inductive Hist : RS σ ω → RS σ ω → Prop
+  | refl (rs) : Hist rs rs
+  | step {rs rs2} (clock : Int) : Hist (executeOnce env clock rs).2 rs2 → Hist rs rs2
+  | other {rs rs1 rs2} : rs1.st.config = rs.st.config → rs1.st.entryTime = rs.st.entryTime → Hist rs1 rs2 → Hist rs rs2
+
+/-- **Active states always have an entry time**, in every state reachable by any history from a
+    fresh interpreter (whose configuration is empty): `after(d)` of a transition whose source is
+    active never meets a missing entry time, also after steps that raised. -/
+theorem active_states_have_entry_time (rs rs' : RS σ ω) (h : Hist env rs rs') (h0 : Timed rs.st) : Timed rs'.st := by
+  induction h with
+  | refl => exact h0
+  | step clock _ ih =>
+    apply ih
+    intro s hs
+    rcases (executeOnce_times env clock _).2.2 s hs with ⟨hb, he⟩ | he
+    · rw [he]; exact h0 s hb
+    · rw [he]; rfl
+  | other hc he _ ih =>
+    apply ih
+    intro s hs
+    rw [hc] at hs; rw [he]; exact h0 s hs
+
+example (st : IState σ) (h : st.config = []) : Timed st := by intro s hs; rw [h] at hs; cases hs
 
 end Sismic.C13
